@@ -20,7 +20,7 @@ for c, pr in props.items():
     t = f"""You are helping to evaluate a verification effort by producing a *seeded defect* (a mutant) for an open-source Python library, holoviz/spatialpandas (Pandas/Dask extension arrays for vector geometry, numba kernels, Hilbert R-tree, parquet I/O).
 
 Your private scratch git worktree of the repository is at: {wt}/{c}
-Work ONLY inside that directory (never touch /repo or /verif, and do not read /verif). Python to use: /venv/bin/python (has pandas, dask, pyarrow, numba; NO shapely/geopandas). When you run python with the current directory = your worktree, `import spatialpandas` imports YOUR worktree copy (check `spatialpandas.__file__`). There is no network.
+Work ONLY inside that directory (never touch /repo or /verif, and do not read /verif). Python to use: /venv/bin/python (has pandas, dask, pyarrow, numba; NO shapely/geopandas). When you run python with the current directory = your worktree, `import spatialpandas` imports YOUR worktree copy (check `spatialpandas.__file__`). There is no network. Other jobs share this machine: prefix every python/pytest command with `NUMBA_NUM_THREADS=2` and never use pkill/killall (kill only PIDs you started).
 
 The semantic property your change must break:
 
@@ -40,7 +40,7 @@ NOTE: {len(u)} other engineers have already seeded defects for this property:
 {earlier}
 Choose a DIFFERENT mechanism and a different function from all of them, ideally a clause of the property statement or a corner of the quantified domain that none of them touches (read the statement again clause by clause and pick the least obvious one).
 
-STYLE OF DEFECT for this round: prefer one of (a) a public method, argument or option named in (or implied by) the property that the earlier seeds did not exercise, (b) the interaction of two features that are each fine alone (slicing + spatial index + Dask, several geometry columns + parquet + pruning, missing rows + sorting, ...), (c) a boundary of a counted quantity (0, 1, exactly page_size, exactly a power of two, the last partition, the first element), (d) an error path that should raise but now returns something (or the reverse) - whichever fits the property and has not been used by the earlier seeds.
+STYLE OF DEFECT for this round: prefer one of (a) state carried across calls (a cached attribute, memoised spatial index or bounds, an object reused after an operation, a second call on the same object or path), (b) default versus explicit arguments (the behaviour must be the same when a default is spelled out, a keyword is passed positionally, a label is a non-string, a path is a different-but-equivalent spelling), (c) ordering / stability assumptions (already sorted input, duplicates, exact ties, reversed input, a single distinct value), (d) a numeric representation corner (float32 storage, negative zero, +-inf, subnormal widths, values at 2**24 / 2**53, empty or length-1 buffers) - whichever fits the property and has not been used by the earlier seeds.
 
 SIDE OBSERVATIONS: while exploring, if you notice that the UNMODIFIED code already violates the property statement on some input or operation sequence (i.e. a pre-existing bug, not your mutant), record it in NOTES.md under a heading "Side observations on the unmodified tree" with a minimal reproducer (a few lines of Python and the observed vs expected output). Do not fix it and do not build your mutant on it.
 
